@@ -3,9 +3,10 @@ filed under the class they were carved at (R-CLASS); RAII guards are tied to the
 witnesses); freed chunks are handed back, never dropped (R-LINEAR); a live arena is never freed by
 an allocation path (R-ARENA)."""
 from vlib import fixtures
+from vlib.run import Broken
 import re
 
-from rules import linear, own, taint, sync
+from rules import linear, own, taint, sync, refusal
 from vlib import witness
 from vlib.mir import Fn
 
@@ -18,7 +19,7 @@ SIZE_NAMES = ('size', 'align', 'count', 'len', 'alignment', 'capacity', 'n', 'ad
 
 def run(ctx):
     fx = ctx.facts("default")
-    fixtures.run(ctx, ['linear', 'taint', 'commit', 'relink', 'viewcursor', 'locksplit'])
+    fixtures.run(ctx, ['linear', 'taint', 'commit', 'relink', 'viewcursor', 'locksplit', 'region'])
     # (1) request sizes are untrusted integers for the allocator entry points
     cl = taint.new_closure(fx)
     n = 0
@@ -83,6 +84,14 @@ def run(ctx):
     # (4c) a recycled mmap region is as long as the request it is handed out for
     linear.view_capacity(ctx, fx, "memory::mmap::MmapAllocation", "size", "actual_size", ["src/memory/mmap.rs"])
     ctx.floor("R-VIEW.constructions", 2)
+    # (4e) a pointer handed back to a pool is refused unless it lies inside the pool's region (upper bound included)
+    for pf in ("memory::lockfree_pool::LockFreeMemoryPool::ptr_to_offset", "memory::fixed_capacity_pool::FixedCapacityMemoryPool::ptr_to_offset"):
+        rec = fx.raw(pf)
+        if rec is None:
+            raise Broken("%s not found" % pf)
+        ctx.analysed_fns.add(pf)
+        ctx.instance("R-GUARD.region.validators", refusal.region_upper_bound(ctx, fx, Fn(rec), 2, r"memory_size$|capacity$|total_capacity$"))
+    ctx.floor("R-GUARD.region.validators", 2)
     # (4d) the end-of-chunk carve of the five-level pool refuses on the cursor it advances
     linear.guard_on_cursor(ctx, fx, "memory::five_level_pool::NoLockingPool::alloc_from_end")
     # (5) who may drop an arena
